@@ -213,17 +213,19 @@ def r02_4(ck, F):
             seen.add(who)
             val = b.expr(s["rv"]["o"]) if s["rv"]["r"] == "use" else b.expr(["c", s["p"]])
             sh = mir.show(val)
+            ar = arith(val)
             if who == "request":
-                ok = val[0] == "bin" and val[1] == "Sub" and mir.calls_in(val[3], "std::cmp::Ord::min") and \
-                    any("credits" in mir.show(l) for l in _min_leaves(val[3]))
+                ok = ar is not None and ar[0] == "Sub" and mir.calls_in(ar[2], "std::cmp::Ord::min") and \
+                    any("credits" in mir.show(l) for l in _min_leaves(ar[2]))
             elif who == "try_request":
                 ce = [switch_expr(b, sw) for sw, tb, v in controlling_edges(b, bb) if switch_meaning(b, sw, v) is True]
-                ok = val[0] == "bin" and val[1] == "Sub" and "req" in mir.paths_in(val[3]) and \
+                ok = ar is not None and ar[0] == "Sub" and "req" in mir.paths_in(ar[2]) and \
                     any(e[0] == "bin" and e[1] == "Ge" and "req" in mir.paths_in(e[3]) for e in ce)
             elif who == "provide":
                 ok = bool(mir.calls_in(val, "core::num::<impl u32>::checked_add")) or "checked_add" in sh
             else:
-                ok = val[0] == "bin" and val[1] == "Add" and "self.port" in mir.paths_in(val)
+                adds = [c for c in mir.calls_in(val) if c[1].split("::")[-1] in ("saturating_add", "checked_add", "wrapping_add")]
+                ok = (val[0] == "bin" and val[1] == "Add" or bool(adds)) and "self.port" in mir.paths_in(val)
             ck.expect(ok, site, f"{who}: stores {sh}", f"{who}: unexpected pool update {sh}", b.loc(bb, i))
     for who in allowed.values():
         if who not in seen:
@@ -258,8 +260,8 @@ def r02_5(ck, F):
     b = F.body("chmux::credit::ChannelCreditReturner::start_return")
     used = [(bb, i, b.expr(s["rv"]["o"])) for bb, i, s in b.field_stores("used") if s["rv"]["r"] == "use"]
     tor = [(bb, i, b.expr(s["rv"]["o"])) for bb, i, s in b.field_stores("to_return") if s["rv"]["r"] == "use"]
-    ok_used = any(e[0] == "bin" and e[1] == "Sub" and "credit.0" in mir.paths_in(e[3]) for _, _, e in used)
-    ok_tor = any(e[0] == "bin" and e[1] == "Add" and "credit.0" in mir.paths_in(e[3]) for _, _, e in tor)
+    ok_used = any(arith(e) and arith(e)[0] == "Sub" and "credit.0" in mir.paths_in(arith(e)[2]) for _, _, e in used)
+    ok_tor = any(arith(e) and arith(e)[0] == "Add" and "credit.0" in mir.paths_in(arith(e)[2]) for _, _, e in tor)
     ck.expect(ok_used and ok_tor, "start_return#move", "used -= credit.0 and to_return += credit.0",
               "start_return does not move exactly credit.0 from used to to_return", b.loc(0))
     zero = [(bb, i) for bb, i, e in tor if const_value(e) == 0]
